@@ -26,6 +26,10 @@ def item_index(code):
             if kind == "impl":
                 mm = re.search(r"\bfor\s+([A-Za-z_][A-Za-z0-9_]*)", rest) or re.match(r"(?:<[^>]*>\s*)?([A-Za-z_][A-Za-z0-9_:]*)", rest)
                 name = mm.group(1) if mm else rest
+                # `impl TryFrom<&X> for http::HeaderMap` / `impl TryFrom<X> for http::HeaderMap` belong to X
+                hm = re.search(r"TryFrom<&?([A-Za-z_][A-Za-z0-9_]*)>\s+for\s+http::HeaderMap", rest)
+                if hm:
+                    name = hm.group(1)
             else:
                 mm = re.match(r"([A-Za-z_#][A-Za-z0-9_#]*)", rest)
                 name = mm.group(1) if mm else rest
